@@ -463,6 +463,8 @@ func run(r *ev.Run) {
 	startBinding(r, 4)
 	r.Rule("E2: a retransmission (the identical datagram twice) through the real Serve loop under all schedules up to the preemption bound: every copy runs through the whole chain and is answered, as in a serial order.")
 	c16.RunSpecs(r, "C13", func(sp conc.Spec) bool { return strings.Contains(sp.Name, "S1d-") })
+	// ... and 1200 (thorough 6000) requests in flight at once: every one is dispatched
+	c16.RunWide(r, "C13")
 }
 
 func replay(r *ev.Run, raw json.RawMessage) {
